@@ -236,6 +236,9 @@ static bool read_elem(Tok& t, Elem& e) {
             el->end_extensions = t.v();
             el->join_type = JoinType::Natural;
             el->bend_type = BendType::None;
+            // a bend radius is a length of the element like its extensions: every scaling has to scale it (the bend type stays None
+            // here so that the outline does not depend on arc sampling; the parameter itself is checked after the operations)
+            el->bend_radius = 2.5 + (double)k;
             for (long i = 0; i < nsp; i++) {
                 Vec2 wo = t.v();
                 if (wo.v != 0) e.has_offset = true;
@@ -624,6 +627,24 @@ static void run_seq(Out& out, const std::string& id, const std::string& payload)
         A = o.mat().after(A);
     }
     out.I(id, dump_elem(e));
+    if (e.kind == 'F') {
+        double fac = 1;
+        for (auto& o : ops) {
+            if (o.type == 's') fac *= fabs(o.f);
+            if (o.type == 'T') fac *= fabs(o.mag);
+        }
+        for (uint64_t k = 0; k < e.flex.num_elements; k++) {
+            double want = (2.5 + (double)k) * fac, got = e.flex.elements[k].bend_radius;
+            if (fabs(got - want) > 1e-12 * fabs(want)) {
+                char b[200];
+                snprintf(b, sizeof b, "element %d: bend radius %.17g after the operations, %.17g expected (2.5 + k scaled by %.17g)", (int)k, got, want, fac);
+                out.P(id, std::string("FAIL FlexPath::scale/transform:bend-radius ") + b);
+                out.count("P:FlexPath::scale/transform:bend-radius");
+                e.clear();
+                return;
+            }
+        }
+    }
     for (auto& o : ops) {
         if (o.type == 'm' && o.p0 == o.p1) {
             // no line, no reflection: nothing to compare with (Polygon/FlexPath::mirror return early,
